@@ -244,6 +244,20 @@ func (g *JGen) Mutate(s string) string {
 		case 4: // append another value or separator
 			b = append(b, []byte(g.r.Pick([]string{",", ",0", "]", "}", " 1", ",[", ":", "\"", "x"}))...)
 		}
+		if g.r.Chance(8) && len(b) > 0 {
+			// one letter in the other case (literals, exponent markers, escapes, hex digits)
+			for try := 0; try < 8; try++ {
+				i := g.r.Intn(len(b))
+				if c := b[i]; c >= 'a' && c <= 'z' {
+					b[i] = c - 32
+					break
+				} else if c >= 'A' && c <= 'Z' {
+					b[i] = c + 32
+					break
+				}
+			}
+			g.Stats["malformed.case-flip"]++
+		}
 		if g.r.Chance(12) {
 			// white space that is NOT JSON white space (Unicode spaces, other ASCII controls) around the text or inside it
 			ws := g.r.Pick(notJSONSpace)
